@@ -90,6 +90,7 @@ class ConnRun:
     # -- which events are possible now (from the real objects' state)
     def possible(self, e):
         a = e["a"]
+        x_ = e.get("x", 0)
         cb = e.get("cb")
         if cb and cb["a"] != "none" and a == "Close":
             ok = lambda i: i in self.ds and i not in self.done
@@ -120,7 +121,9 @@ class ConnRun:
         if a == "Cancel":
             return e["id"] in self.ds and e["id"] not in self.done
         if a == "Close":
-            return not self.closed
+            return not self.closed and (x_ != 1 or len(self.net.pending_attempts()) == 1)
+        if a == "Arm":
+            return self.net.sync_next == 0 and e["x"] in (1, 2)
         return True
 
     NOCB = {"a": "none", "id": 0, "x": 0}
@@ -164,13 +167,21 @@ class ConnRun:
             self.bc.disconnect()
         elif a == "Close":
             self.closed = True
-            dd = self.bc.close()
+            self.net.win_on_cancel = bool(x)
+            try:
+                dd = self.bc.close()
+            finally:
+                self.net.win_on_cancel = False
+            if x:
+                self.mid = None
 
             def _down(r):
                 self.down_fired = True
                 return r
 
             dd.addBoth(_down)
+        elif a == "Arm":
+            self.net.sync_next = x
         elif a == "Readdress":
             h, p = _addr(x)
             self.bc.updateMetadata(self.BrokerMetadata(1, h, p))
@@ -228,6 +239,7 @@ class ConnRun:
             "down": self.down_fired and not down0,
             "raised": self.raised,
             "exc": exc,
+            "nconn": len(self.net.transports),
         }
         self.trace.append({"e": {"a": a, "id": rid, "x": x, "cb": cb}, "o": o})
         return True
@@ -301,6 +313,8 @@ def random_schedule_run(seed, length, max_ids=8):
             add(1, "Cancel", j, 0, some_cb(j))
         add(1, "Disconnect")
         add(0.4, "Close")
+        add(0.4, "Close", 0, 1)
+        add(0.7, "Arm", 0, rng.choice([1, 2]))
         if len(pend) >= 2:
             i_, j_ = rng.sample(pend, 2)
             add(0.4, "Close", i_, 0, {"a": "Cancel", "id": j_, "x": 0})
